@@ -60,6 +60,15 @@ impl GrlReteLoader {
         Ok(loaded_count)
     }
 
+    /// Verification seam: the converted rule and its dependencies, exactly as
+    /// `load_from_string` would hand them to `IncrementalEngine::add_rule`.
+    #[cfg(rre_verif)]
+    pub fn verif_convert_rule(rule: Rule) -> Result<(TypedReteUlRule, Vec<String>)> {
+        let rete_rule = Self::convert_rule_to_rete(rule)?;
+        let dependencies = Self::extract_dependencies(&rete_rule);
+        Ok((rete_rule, dependencies))
+    }
+
     /// Convert GRL Rule to TypedReteUlRule
     fn convert_rule_to_rete(rule: Rule) -> Result<TypedReteUlRule> {
         // Convert ConditionGroup to ReteUlNode
